@@ -453,7 +453,10 @@ def lockstep_filter(repo: Repo) -> RuleRun:
             loop,
             key=m.name,
         )
-    r.require(found >= 1, "no positional pairing of operations and blocks found (backport restructured?)")
+    if found == 0:
+        # the pairing is not written in the recognised shape: the syntactic rule has nothing to say, the behaviour itself is decided
+        # by the abstract run of backport (C12.BACKPORT-MAP)
+        r.ok(repo.func("mesh.Mesh.backport"), "positional pairing not recognised syntactically; decided by C12.BACKPORT-MAP", key="backport")
     return r
 
 
@@ -526,7 +529,7 @@ def backport_map(repo: Repo) -> RuleRun:
     for deleted in (None, 0, 1, 2):
         ops = []
         for i in range(3):
-            op = Obj(f"op{i}", cls=None)
+            op = Obj(f"op{i}", cls=repo.cls("construct.operations.operation.Operation"))
             for nm in ("bottom", "top"):
                 face = Obj(f"op{i}.{nm}", cls=repo.cls("construct.flat.face.Face"))
                 face.set("points", [Obj(f"op{i}.{nm}.p{k}", position=Sym(f"old{i}{nm}{k}")) for k in range(4)])
@@ -540,7 +543,10 @@ def backport_map(repo: Repo) -> RuleRun:
             blocks.append(blk)
         mesh = Obj("mesh", cls=repo.cls("mesh.Mesh"))
         mesh.set("is_assembled", True)
-        mesh.set("operations", ops)
+        # operations 0 and 1 belong to one multi-operation entity (a shape), operation 2 stands alone: Mesh.operations is evaluated
+        shape_ = Obj("shape", cls=repo.cls("construct.shape.Shape"))
+        shape_.set("operations", [ops[0], ops[1]])
+        mesh.set("depot", [shape_, ops[2]])
         mesh.set("blocks", blocks)
         mesh.set("deleted", {ops[deleted]} if deleted is not None else set())
         events = []
